@@ -424,6 +424,9 @@ func runClockLane(res *corr.Result, r *rand.Rand, model string, nRandom int, onl
 						props = c13
 					}
 				}
+				if kinds[k] != "T" && strings.HasPrefix(a, "nf:") == strings.HasPrefix(m, "nf:") {
+					props = []string{"C05"} // both found or both not found: time decides presence only
+				}
 				break
 			}
 		}
